@@ -106,6 +106,7 @@ class Interp:
         self.contract_calls: set[str] = set()
         self.extern_calls: set[str] = set()
         self.top_label = None
+        self.mutable_globals = set()
         self.local_loops = {}  # loop annotations registered by the contract being verified
         self.on_call = {}  # dotted name -> callback(args dict) executed before a call (ghost monitors)
         self.yield_hook = None
@@ -428,6 +429,10 @@ class Interp:
             return ClassRef(cls)
         g = self.P.globals.get(module, {})
         if name in g:
+            if g[name]["k"] in ("dict", "list") and name not in self.registry.constant_globals and not name.startswith("__"):
+                # a module-level mutable container that is not one of the constant tables of the reference tree: the
+                # function's result may depend on what earlier calls left there (frame condition, reported by the driver)
+                self.mutable_globals.add(f"{module}.{name}")
             return self.from_dump(g[name])
         if hasattr(_pybuiltins, name):
             return Builtin(name)
@@ -1121,6 +1126,10 @@ class Interp:
         depth = len(self.frames)
         if depth > MAX_DEPTH:
             raise OutOfReach("call depth")
+        for dec in fi.node.decorator_list:
+            dn = ast.unparse(dec)
+            if dn not in ("classmethod", "staticmethod", "property"):
+                raise OutOfReach(f"decorator @{dn} on {fi.dotted} is outside the supported subset (its effect on the function is not modelled)")
         menv = Env(fi.module, closure_env)
         bound = self.bind_args(fi, args, kwargs, menv)
         spec = self.registry.contract_for(fi.dotted)
